@@ -993,6 +993,26 @@ func (s *session) apply(step tf.M) {
 		}
 		s.flags["setPeriod"] = true
 		s.d.W.Step("SetPeriod", tf.M{"p": p}, outc(o), s.project())
+	case "SetMaxDE":
+		m := tf.Int(step, "m", 1)
+		params := tk.GetParams(s.r.Ctx)
+		params.MaxDESize = uint64(m)
+		o := s.deliver(&tsstypes.MsgUpdateParams{Authority: tk.GetAuthority(), Params: params})
+		if !o.OK() {
+			panic(fmt.Sprint("SetMaxDE failed: ", o.Err))
+		}
+		s.flags["setMaxDE"] = true
+		s.d.W.Step("SetMaxDE", tf.M{"m": m}, outc(o), s.project())
+	case "SetMaxAtt":
+		m := tf.Int(step, "m", 1)
+		params := tk.GetParams(s.r.Ctx)
+		params.MaxSigningAttempt = uint64(m)
+		o := s.deliver(&tsstypes.MsgUpdateParams{Authority: tk.GetAuthority(), Params: params})
+		if !o.OK() {
+			panic(fmt.Sprint("SetMaxAtt failed: ", o.Err))
+		}
+		s.flags["setMaxAtt"] = true
+		s.d.W.Step("SetMaxAtt", tf.M{"m": m}, outc(o), s.project())
 	case "EndBlock":
 		npre := tf.Int(step, "npre", 0)
 		if !s.oracleOn {
@@ -1243,6 +1263,10 @@ func RandomScript(rng *rand.Rand, mode string) tf.Script {
 			default:
 				if mayChange && rng.Intn(2) == 0 && reqs > 0 {
 					steps = append(steps, tf.M{"e": "SetPeriod", "p": 1 + rng.Intn(3)})
+				} else if mayChange && rng.Intn(2) == 0 && reqs > 0 {
+					steps = append(steps, tf.M{"e": "SetMaxAtt", "m": 1 + rng.Intn(3)})
+				} else if mayChange && rng.Intn(2) == 0 {
+					steps = append(steps, tf.M{"e": "SetMaxDE", "m": 1 + rng.Intn(3)})
 				}
 			}
 		}
